@@ -435,7 +435,7 @@ func runC06(c *ctx) {
 	lits = append(lits, "0", "-0", "1", "-1", "+5", "007", "-007", "1.0", "1e2", "1E2", "-1.5", "1_0", "0x10", "", "-", "+", "--1",
 		"1180591620717411303424", "-1180591620717411303424", "00", "9223372036854775808", "18446744073709551616",
 		"null", "true", "false", "nul", "True",
-		`""`, `"a"`, `"aé😀b"`, `"\ud800"`, `"a\"b\\c\/d"`, `"<>& "`, `"` + "\xc3\xa9" + `"`, `"5"`, `"true"`, `"null"`,
+		`""`, `"a"`, `"aé😀b"`, `"\ud800"`, `"a\"b\\c\/d"`, `"<>& "`, `"`+"\xc3\xa9"+`"`, `"5"`, `"true"`, `"null"`,
 		`"2020-02-29T12:34:56Z"`, `"2020-02-29T12:34:56.123456789+05:30"`, `"0001-01-01T00:00:00Z"`, `"9999-12-31T23:59:59.999999999-23:59"`,
 		`"2020-02-30T00:00:00Z"`, `"2020-01-01T24:00:00Z"`, `"2020-01-01T00:00:00"`, `"2020-01-01 00:00:00Z"`, `"2020-01-01T00:00:00Z"`,
 		`"2020-01-01T00:00:00.000Z"`, `"2020-01-01T00:00:00z"`, `"2020-01-01T1:00:00Z"`, `"2020-01-01T00:00:00,5Z"`, `"2020-01-01T00:00:00+24:00"`,
